@@ -70,7 +70,15 @@ def _on_grid(info, tag=""):
             for s in L["dense_states"]:
                 idx.append(int(st[s]))
             for s in L["cont_states"]:
-                pts = grid_points(G[s])
+                if G[s]["k"] == "log":
+                    # "on the grid" means: equal to the node the library materialises (jnp.logspace may differ from
+                    # exp(log(start) + i * step) computed in Python by one ulp, and one ulp decides `choice <= state - 1`)
+                    from dsl import mkgrid
+
+                    impl()
+                    pts = [Fr(float(x)) for x in impl().np.asarray(mkgrid(G[s]).to_jax())]
+                else:
+                    pts = grid_points(G[s])
                 if st[s] not in pts:
                     ok = False
                     break
